@@ -13,25 +13,25 @@ PY = "/venv/bin/python"
 CHECKS = {
     "C01": (
         "regex language inclusion (tokenizer vs tag handler) + typestate/flow walk over parser handlers",
-        "Decides eight necessary conditions of parse() totality and tree well-formedness for all inputs: every tokenizer tag token is accepted by tag_fn's regexes (language inclusion), no token alternative is nullable, heading tables agree, numeric conversions on the parse path are soundly guarded, children are finalised before they are moved into argument lists, raw stack pops are paired with removal from the parent, parser state is reset per parse, and row/cell/caption/list-item pushes happen only with the required parent on top (set-valued typestate). Does not decide totality in general.",
+        "Decides eleven necessary conditions of parse() totality and tree well-formedness for all inputs: every tokenizer tag token is accepted by tag_fn's regexes (language inclusion), no token alternative is nullable, heading tables agree, numeric conversions on the parse path are soundly guarded, children and attribute text are finalised before they are moved into argument fields, raw stack pops are paired with removal from the parent, parser state is reset per parse, row/cell/caption/list-item pushes happen only with the required parent on top (set-valued typestate), no loop around _parser_pop can pop ROOT, entries of the parameter defaultdict stay lists, constant indexes into a node's largs/children are guarded. Does not decide totality in general.",
         "Trusts Python's re semantics as modelled by the regex toolkit; handlers reached only through tokenops/process_text dispatch.",
         "DESIGN.md §3 C01",
     ),
     "C02": (
         "decision-skeleton evaluation over NodeKind x level",
-        "Evaluates the extracted stop predicates of subtitle_start_fn and hline_fn over all 27 node kinds x 6 levels against the nesting rule of the statement, plus same-line/same-kind matching of heading ends and marker provenance in list_fn. Thin: the list-prefix comparison and 'exactly one node per line' are not decided.",
+        "Evaluates the extracted stop predicates of subtitle_start_fn (loop condition included) and hline_fn over all 27 node kinds x 6 levels against the nesting rule of the statement, plus same-line/same-kind matching of heading ends, marker provenance in list_fn, closing of all open lists by non-list content at the beginning of a line, and the universal (every position) form of the open-marker comparison. Thin: 'exactly one node per line' and marker values are not decided.",
         "The statement's nesting rule is the oracle; tables are recovered by constant folding, not by importing the package.",
         "DESIGN.md §3 C02",
     ),
     "C03": (
         "typestate on parser stack + table/registry agreement",
-        "Placement typestate shared with C01 (rows only under tables, cells only under rows), allowed-tag table consumable by the tokenizer, cookie-kind exhaustiveness across producers and consumers, attribute grammar inclusion, and agreement of the sibling arms of magic_fn. Thin: r x c shape and cell content are runtime values and not decided.",
+        "Placement typestate shared with C01 (rows only under tables, cells only under rows), allowed-tag table consumable by the tokenizer, cookie-kind exhaustiveness across producers and consumers, full-match inclusion of the attribute grammar over the URL-safe alphabet, agreement of the sibling arms of magic_fn, attribute names/values stored as written, || continuing the kind of the row's last cell, derived tag tables computed after the last update of the allowed-tag table. Thin: r x c shape, cell content and valueless attributes are not decided.",
         "As C01.",
         "DESIGN.md §3 C03",
     ),
     "C04": (
         "must-pass-through and def-use on the template expansion path",
-        "Decides five narrow clauses: automatic newline not bypassed, includable part computed at ingestion, positional values untrimmed / named trimmed, body pipeline order preprocess->encode->substitute->expand with the new parent frame, conditional functions trim their results. Thin: equality with MediaWiki output is not decidable statically.",
+        "Decides seven narrow clauses: automatic newline not bypassed, includable part computed at ingestion, positional values untrimmed / named trimmed / later duplicates win, body pipeline order stored body->preprocess->encode->substitute->expand with the new parent frame, conditional functions trim their results, missing template -> link and undefined parameter -> literal, #switch fall-through flags are latches. Thin: equality with MediaWiki output is not decidable statically.",
         "Def-use is intra-procedural over the anchored closures.",
         "DESIGN.md §3 C04",
     ),
@@ -49,61 +49,61 @@ CHECKS = {
     ),
     "C07": (
         "capability reachability (hook control, error-catching primitives) + cross-language constants",
-        "Decides whether a module can defeat the time limit: hook-control functions not reachable from the environment, error-catching primitives re-raise the timeout marker, the limit is armed before both pcall sites, the Python side tests the same marker string, the limit is bounded. Does not bound wall time.",
+        "Decides whether a module can defeat the time limit: hook-control functions not reachable from the environment, error-catching primitives re-raise the timeout marker, the limit is armed before both pcall sites, the Python side tests the same marker string and leaves the context usable, the limit is bounded and freshly armed, and the module cache receives only results of completed initialisation chunks (nothing a timeout could leave behind). Does not bound wall time.",
         "Timeout is delivered by error() from a count hook as in the shipped sources.",
         "DESIGN.md §3 C07",
     ),
     "C08": (
         "cross-language layout agreement + def-use provenance",
-        "Tuple layout (value, is_named) built in make_frame agrees with the indexes read by frame_args_index; provenance of the four frames of reference in call_lua_sandbox; named-argument detection agrees with the expander. Thin: the metamorphic equivalences themselves are not decided.",
+        "Tuple layout (value, is_named) built in make_frame agrees with the indexes read by frame_args_index; provenance of the four frames of reference in call_lua_sandbox, including that preprocess/expandTemplate only return constants, the heading strip-marker form or the result of expansion in the calling page context; named-argument detection and positional numbering agree with the expander; expandTemplate/callParserFunction pass arguments structurally. Thin: the metamorphic equivalences themselves are not decided.",
         "Lua front end resolves locals/upvalues of the shipped sandbox files only.",
         "DESIGN.md §3 C08",
     ),
     "C09": (
         "effect/alias analysis over context attributes and module-level mutables; Lua cache reachability",
-        "Every context attribute mutated on the expand/parse path is re-initialised per page or per parse; no module- or class-level mutable object is mutated through an instance; Lua reset and clone are on the invocation path; what survives the Lua reset and what shared tables are writable from a module. Decides which state can carry over, not equality of results.",
+        "Every context attribute mutated on the expand/parse path is re-initialised per page or per parse; no module-level or default-argument mutable object is mutated through an instance, including inner objects reached through one-level copies; attributes whose object the Lua runtime captured are never rebound; Lua reset and clone are on the invocation path; what survives the Lua reset and what shared tables are writable from a module. Decides which state can carry over, not equality of results.",
         "Attribute effects are collected syntactically over the package with receivers named self/ctx/wtp.",
         "DESIGN.md §3 C09",
     ),
     "C10": (
         "SQL fact extraction + flow walk (memo invalidation after writers)",
-        "Memoised readers of table pages are invalidated after every writer on every normal path, the upsert updates every non-key column from excluded.*, column lists align with bound tuples and with Page(...) construction, every lookup helper goes through get_page, commits precede close/backup. Does not decide the title-spelling matrix.",
+        "Memoised readers of table pages are invalidated after every writer on every normal path, the upsert updates every non-key column from excluded.* unconditionally, column lists align with bound tuples and with Page(...) construction, every lookup helper goes through get_page, commits precede close/backup, writer and reader agree on the stored key form, no case-altering call on titles beyond the first letter, and the namespace tables are indexed with keys of their own key space (canonical vs local names, checked against the shipped data). Does not decide the title-spelling matrix.",
         "SQL is recovered from string constants reaching execute/executescript.",
         "DESIGN.md §3 C10",
     ),
     "C11": (
         "file-protocol typestate on symbolic paths",
-        "Publication protocol of the database files: the backup becomes visible under its final name only by an atomic rename of a finished copy, restore removes the old -wal/-shm before opening, backup precedes overwrite on both override arms, commit precedes copy. A kill at any point leaves exactly the files whose creating call started, so the protocol decides crash-safety up to SQLite's own atomic commit.",
+        "Publication protocol of the database files: the backup becomes visible under its final name only by an atomic rename of a finished copy, restore removes the old -wal/-shm before the backup is renamed into place and before opening, the backup is never deleted before it is moved, backup precedes overwrite on both override arms, commit precedes copy. A kill at any point leaves exactly the files whose creating call started, so the protocol decides crash-safety up to SQLite's own atomic commit.",
         "SQLite's atomic commit and os.replace atomicity are trusted.",
         "DESIGN.md §3 C11",
     ),
     "C12": (
         "decision-skeleton of the ingestion filter + def-use + SQL alignment",
-        "The two skip conditions of parse_dump_xml evaluated over all valuations of their atoms against the statement, no transformation of title/text/model/redirect on the way to add_page, insert alignment, the four default templates added only when absent.",
+        "The two skip conditions of parse_dump_xml evaluated over all valuations of their atoms against the statement, no transformation of title/text/model/redirect on the way to add_page, insert alignment, complete unconditional replacement of a re-added title, the four default templates added only when absent.",
         "Redirects of other content models are reported but not judged (statement is silent).",
         "DESIGN.md §3 C12",
     ),
     "C13": (
         "truth-table evaluation of the selection function + writer/reader agreement",
-        "check_template_need_expand evaluated on all 64 valuations against the statement; every non-expanding exit re-emits name and all arguments and is stack-balanced; hook call discipline; formatter delimiters agree with the encoder's bracket regexes.",
+        "check_template_need_expand evaluated on all consistent valuations against the statement; every exit of the template branch is an expansion, an error element or a re-emission of the call with all its arguments in order, and the re-emitting exits are stack-balanced; hook call discipline; formatter delimiters agree with the encoder's bracket regexes.",
         "Character-level identity of re-emitted text is not decided.",
         "DESIGN.md §3 C13",
     ),
     "C14": (
-        "sibling agreement of three argument-map builders",
-        "Integer-key predicate, notion of 'named' (regex class algebra over a stated plain-text alphabet) and trimming agree between TemplateNode.template_parameters, the expander and make_frame.",
+        "sibling agreement of three argument-map builders + Lua AST shape of the key chain",
+        "Integer-key predicate, notion of 'named' (regex class algebra over a stated plain-text alphabet), trimming and stepping of the positional counter (by one, on the positional path only) agree between TemplateNode.template_parameters, the expander and make_frame; on the Lua side a key is looked up as given before its numeric form and the iteration chain holds every delivered key exactly once.",
         "Stated plain-text alphabet; values are not compared.",
         "DESIGN.md §3 C14",
     ),
     "C15": (
         "event order (protect before encode) + constant evaluation of the entity table",
-        "preprocess_text precedes _encode at every encode site of core.py, N cookies are inert in every consumer, the nowiki entity table round-trips through html.unescape, comment removal pattern shape.",
+        "preprocess_text precedes _encode at every encode site, N cookies are inert in every consumer and quoted exactly once, the nowiki entity table round-trips through html.unescape, preprocess patterns and order, and the cookie table is append-only between start_page calls (so cookie characters in text produced earlier keep their meaning).",
         "Does not decide that no other consumer re-interprets protected text.",
         "DESIGN.md §3 C15",
     ),
     "C16": (
         "path-sensitive push/pop balance (structured flow walk)",
-        "For every function that pushes or pops the expansion path, on every path to every return and around every loop iteration the net change is zero (closures summarised, snapshot/restore idiom modelled); only __init__/start_page assign the path; the five recorders build complete ErrorMessageData records from self and start_page resets the lists. Holds for all inputs and option combinations because it is a statement about all syntactic paths.",
+        "For every function that pushes or pops the expansion path, on every path to every return and around every loop iteration the net change is zero (closures summarised, snapshot/restore idiom modelled, every except handler around a call that reaches a push treated as a catch boundary that must restore the path); only __init__/start_page assign the path; the five recorders build complete ErrorMessageData records from self and start_page resets the lists. Holds for all inputs and option combinations because it is a statement about all syntactic paths.",
         "User callbacks do not touch expand_stack; exceptions escaping expand()/parse() are outside the property.",
         "DESIGN.md §3 C16",
     ),
@@ -115,19 +115,19 @@ CHECKS = {
     ),
     "C18": (
         "table agreement with the documented precedence ladder + mypy comparison-overlap + data cross-check",
-        "The #expr ladder and the table used at each level agree with the documented precedence, left folding; no str/int comparison overlap in registered functions (mypy strict equality); formatnum's algorithm precondition holds for every shipped locale.",
+        "The #expr ladder and the table used at each level agree with the documented precedence, left folding; no str/int comparison in registered functions (quick: annotation-driven AST rule; thorough: mypy strict equality); formatnum and formatnum|R are inverse by statement order for every shipped locale. Values of the string functions are not decided.",
         "Documented precedence table frozen in the checker; values of string functions not decided.",
         "DESIGN.md §3 C18",
     ),
     "C19": (
-        "exhaustiveness + writer/reader delimiter agreement",
-        "to_wikitext handles every NodeKind; each opening literal it writes is a token that opens that kind in the parser; heading tables are inverse; [[ and ]] are both protected; attribute values are quoted.",
+        "exhaustiveness + writer/reader delimiter agreement + flow walk over emitter arms",
+        "to_wikitext handles every NodeKind; each opening literal it writes is a token that opens that kind in the parser; heading tables are inverse; [[ and ]] are both protected; attribute values are quoted; a parser function keeps its colon whenever it has an argument list; on every path through every emitter the node's content field (children / largs) is written out whenever it may be non-empty.",
         "Tree equivalence after re-parse is not decided.",
         "DESIGN.md §3 C19",
     ),
     "C20": (
-        "effect analysis on the worker path + check-then-act pattern",
-        "Statements reachable from worker entry points that write table pages are guarded by an absence test of the same key; no unlocked check-then-act on a shared path at start-up. Thin: interleavings are not enumerated.",
+        "effect analysis on the worker path (guarded/committed writes, transaction scopes, file deletions) + check-then-act pattern",
+        "Statements reachable from worker entry points that write table pages are guarded by an effective absence test of the same key and committed on every path; no unlocked check-then-act on a shared path at start-up; no transaction scope spans a read and a later write; schema creation is idempotent; database files are deleted only for private temp-dir databases; the busy timeout is never lowered. Thin: interleavings are not enumerated.",
         "Worker entry points are the constructor, start_page, expand, parse, node_to_*.",
         "DESIGN.md §3 C20",
     ),
